@@ -257,9 +257,9 @@ struct Run {
     if (escaped) { fail("oom:escaped-exception", "exception crossed the C boundary: " + escwhat, "PPL_ERROR_OUT_OF_MEMORY", det); return; }
     bool io = strstr(pattern, "print") || strstr(pattern, "ascii_dump") || strstr(pattern, "ascii_load");
     if (io && rc == PPL_STDIO_ERROR && hcalls == 0) return;   // the stream swallowed the exception and reported failure
-    // the call was failing anyway and the allocation that failed was the one of the error message
-    // (an ostream swallows exceptions): the original error is still reported
-    if (base_tcode != 0 && rc == base_tcode && hcalls == 1 && hcode == rc) return;
+    // the call was failing anyway (same error code as in the pass without injection, judged there) and the allocation
+    // that failed was the one of the error message (an ostream swallows exceptions): the original error is still reported
+    if (base_rc < 0 && rc == base_rc && hcalls == 1 && hcode == rc) return;
     if (rc != PPL_ERROR_OUT_OF_MEMORY) fail("oom:error-code", rcs(rc), rcs(PPL_ERROR_OUT_OF_MEMORY), det);
     else if (hcalls != 1 || hcode != PPL_ERROR_OUT_OF_MEMORY) fail("oom:handler", itos(hcalls) + " call(s), code " + rcs(hcode), "exactly 1 call with PPL_ERROR_OUT_OF_MEMORY", det);
   }
